@@ -65,7 +65,8 @@ def build_network(desc, **kw) -> Network:
     rl = []
     for i, (r, p) in enumerate(desc["reactions"]):
         rl.append(Reaction(list(r), list(p), desc.get("tmin", {}).get(i, -1.0), desc.get("tmax", {}).get(i, -1.0),
-                           1e-10, 0.5, 10.0, ReactionType.GAS_TWOBODY, idxfromfile=desc.get("idx", {}).get(i, i)))
+                           desc.get("alpha", {}).get(i, 1e-10), desc.get("beta", 0.5), desc.get("gamma", 10.0),
+                           ReactionType.GAS_TWOBODY, idxfromfile=desc.get("idx", {}).get(i, i)))
     net = Network(reactions=rl, required_species=list(desc.get("required", [])),
                   cooling=list(desc.get("cooling", [])),
                   rate_modifier=desc.get("rate_modifier"), ode_modifier=desc.get("ode_modifier"), **kw)
@@ -300,10 +301,84 @@ def extract_statements(src: str, lhs_re: str):
 
 
 # --------------------------------------------------------------------------
+# channel C: the rendered CVODE right-hand side and Jacobian, compiled as they stand and executed
+
+CXX_DIR = Path(__file__).resolve().parent / "cxx"
+FEXJAC_TEMPLATES = ["src/naunet_fex.cpp.j2", "src/naunet_jac.cpp.j2", "src/naunet_physics.cpp.j2", "include/naunet_macros.h.j2",
+                    "include/naunet_data.h.j2", "include/naunet_ode.h.j2", "include/naunet_physics.h.j2", "include/naunet_constants.h.j2",
+                    "include/naunet_utilities.h.j2"]
+
+
+def prep_fexjac(desc, method):
+    """render `desc` for cvode/<method> (dense or sparse); returns (compile command, executable path) of the Fex / Jac driver in
+    which the rate routines are stubs that return the coefficients of each case"""
+    net = build_network(desc)
+    d = render(net, "cvode", method, "cpu", templates=FEXJAC_TEMPLATES)
+    exe = d / "fexjac"
+    cmd = ["g++", "-std=c++17", "-O0", "-w", "-Wl,--unresolved-symbols=ignore-all", f"-DFEXJAC_SPARSE={1 if method == 'sparse' else 0}",
+           "-I", str(CXX_DIR / "sundials"), "-I", str(d / "include"), "-o", str(exe),
+           str(d / "src" / "naunet_fex.cpp"), str(d / "src" / "naunet_jac.cpp"), str(d / "src" / "naunet_physics.cpp"), str(CXX_DIR / "fexjac_cvode.cpp")]
+    return cmd, exe
+
+
+def prep_odeint(desc, alphas):
+    """render `desc` for Odeint with the literal alphas[l] as the coefficient of reaction l (beta = gamma = 0); returns (compile
+    command, executable path) of the driver that calls the rendered functors (Boost stand-in headers)"""
+    d2 = dict(desc, alpha={l: float(x) for l, x in enumerate(alphas)}, beta=0.0, gamma=0.0)
+    net = build_network(d2)
+    d = render(net, "odeint", "rosenbrock4", "cpu", templates=["src/naunet_ode.cpp.j2", "src/naunet_physics.cpp.j2", "include/naunet_macros.h.j2",
+                                                              "include/naunet_data.h.j2", "include/naunet_ode.h.j2", "include/naunet_physics.h.j2",
+                                                              "include/naunet_constants.h.j2", "include/naunet_utilities.h.j2"])
+    exe = d / "fexjac"
+    cmd = ["g++", "-std=c++17", "-O0", "-w", "-Wl,--unresolved-symbols=ignore-all", "-I", str(CXX_DIR / "boost"), "-I", str(d / "include"), "-o", str(exe),
+           str(d / "src" / "naunet_ode.cpp"), str(d / "src" / "naunet_physics.cpp"), str(CXX_DIR / "fexjac_odeint.cpp")]
+    return cmd, exe
+
+
+def compile_all(cmds):
+    """run the compile commands concurrently; returns the list of diagnostics (None = compiled)"""
+    import subprocess
+    from concurrent.futures import ThreadPoolExecutor
+
+    def one(cmd):
+        r = subprocess.run(cmd, stdout=subprocess.PIPE, stderr=subprocess.STDOUT, text=True)
+        return None if r.returncode == 0 else "does not compile: " + r.stdout[-700:]
+    with ThreadPoolExecutor(max_workers=max(1, len(cmds))) as ex:
+        return list(ex.map(one, cmds))
+
+
+def run_fexjac(exe, rows):
+    """run a Fex / Jac driver on the input rows (lists of numbers); returns ([{"F", "J", "S", "J_ok"}], None) or (None, diagnostic)"""
+    import subprocess
+    inp = "\n".join(" ".join(repr(float(x)) for x in row) for row in rows) + "\n"
+    r = subprocess.run([str(exe)], input=inp, stdout=subprocess.PIPE, stderr=subprocess.STDOUT, text=True, timeout=120)
+    out, cur = [], None
+    for line in r.stdout.splitlines():
+        t = line.split()
+        if not t:
+            continue
+        if t[0] == "F":
+            cur = {"F": [float(x) for x in t[1:]], "S": None, "J": None, "J_ok": True}
+            out.append(cur)
+        elif t[0] == "S" and cur is not None:
+            i = t.index("|")
+            cur["S"] = ([int(x) for x in t[1:i]], [int(x) for x in t[i + 1:]])
+        elif t[0] in ("J", "J!") and cur is not None:
+            n = len(cur["F"])
+            v = [float(x) for x in t[1:]]
+            cur["J"] = [v[i * n:(i + 1) * n] for i in range(n)]
+            cur["J_ok"] = t[0] == "J"
+    if r.returncode != 0 or len(out) != len(rows) or any(c["J"] is None for c in out):
+        return None, f"driver exit {r.returncode}, {len(out)} results for {len(rows)} cases: {r.stdout[-300:]}"
+    return out, None
+
+
+# --------------------------------------------------------------------------
 # reading rendered C++ bodies: local pointer aliases and array writes
 
 _PTR = re.compile(r"\b(?:const\s+)?(?:realtype|double|float|sunrealtype)\s*\*\s*(?:const\s+)?(\w+)\s*=\s*(\w+)\s*\+\s*([^;]+);")
 _PTR2 = re.compile(r"\b(?:const\s+)?(?:realtype|double|float|sunrealtype)\s*\*\s*(?:const\s+)?(\w+)\s*=\s*&\s*(\w+)\s*\[([^;\]]+)\]\s*;")
+_REF = re.compile(r"\b(?:const\s+)?[A-Za-z_][\w:<>]*\s*&\s*(\w+)\s*=\s*(\w+)\s*;")
 _INT = re.compile(r"\b(?:const\s+)?(?:int|size_t|sunindextype|long)\s+(\w+)\s*=\s*([^;]+);")
 
 
@@ -316,6 +391,8 @@ def resolve_aliases(body: str) -> str:
     for m in list(_PTR.finditer(body)) + list(_PTR2.finditer(body)):
         alias[m.group(1)] = m.group(2)
     ints = {m.group(1) for m in _INT.finditer(body)}
+    refs = {m.group(1): m.group(2) for m in _REF.finditer(body)}        # `matrix_type &jm = j;`: jm(r, c) is j(r, c), jm[i] is j[i]
+    alias.update(refs)
 
     def base(n, depth=0):
         while n in alias and depth < 8:
@@ -324,6 +401,8 @@ def resolve_aliases(body: str) -> str:
     out = body
     for n in sorted(alias, key=len, reverse=True):
         out = re.sub(rf"\b{re.escape(n)}\[", base(n) + "[", out)
+        if n in refs:
+            out = re.sub(rf"(?<![\w&]){re.escape(n)}\(", base(n) + "(", out)
     for o in sorted(ints, key=len, reverse=True):
         out = re.sub(rf"\[\s*{re.escape(o)}\s*\+\s*(IDX_\w+|\d+)\s*\]", r"[\1]", out)
         out = re.sub(rf"\[\s*(IDX_\w+|\d+)\s*\+\s*{re.escape(o)}\s*\]", r"[\1]", out)
